@@ -16,7 +16,11 @@ Round 8 (props/C07_limits.v over ClassLimits.v / ClassLimitsProofs.v): the error
 call_closure tests the arity before the frame limit (side condition on the current source), an error found while the callee is
 determined wins at every depth, the frame limit is reported exactly at frames_max frames, natives are exempt; generator family
 Gen.limit_scenario (a self-limiting descent to exactly FRAMES_MAX frames through every call path, then every error through
-every call path there and one frame higher)."""
+every call path there and one frame higher).
+Round 9 (props/C07_members.v over ClassMembers.v / ClassMembersProofs.v): member lookup has no memory and `super.n` never
+consults the heap (fields, dynamic class); regenerated tables of the Vm's state fields and of the lookup functions' shapes;
+Gen.member_matrix (every access form x every place of the name x every kind of shadowing field on the receiver) and the SCALE
+family of tools/props/C07_scale.py (every dimension through 17..300, result known by construction)."""
 import os
 import re
 
@@ -1131,6 +1135,7 @@ class Gen:
                             e = E_inv(X, n, a)
                         elif f == "top_value":
                             self.stmts.append(S_try([S_var("f", E_get(X, n)), S_print(E_eq(E_call(E_var("f"), a), X))]))
+                            self.features.add("matrix_form_top_value")
                             continue
                         else:
                             e = E_inv(X, "%s_%s" % (f, n), [])
